@@ -40,6 +40,10 @@ type scenario struct {
 	slowExit bool
 	// WithAccMaxRetry of the server (0: 100)
 	amax int
+	// the server gets the real SessionMgr (no wrapper around accepted connections); their peers read only when told
+	rawMgr, lateRead bool
+	// other servers started in this process before (negative index ... ) / after the scenario's own: WithMaxConn values
+	decoysBefore, decoysAfter []int32
 }
 
 // what the slow-drain class measured about its own timing
@@ -132,9 +136,21 @@ func runScenarioT(sc scenario) ([]phaseRec, string, timing) {
 		oldGC := debug.SetGCPercent(-1)
 		defer debug.SetGCPercent(oldGC)
 		t.maxc = sc.maxc
+		w.rawMgr, w.lateRead = sc.rawMgr, sc.lateRead
+		for j, dm := range sc.decoysBefore {
+			if err := w.startDecoy(dm, 3+j); err != nil {
+				panic(fmt.Sprintf("c16: cannot start a second server: %v", err))
+			}
+		}
 		if err := w.startServer(int32(sc.maxc)); err != nil {
 			panic(fmt.Sprintf("c16: cannot start the server: %v", err))
 		}
+		for j, dm := range sc.decoysAfter {
+			if err := w.startDecoy(dm, 5+j); err != nil {
+				panic(fmt.Sprintf("c16: cannot start a second server: %v", err))
+			}
+		}
+		acceptPtr = w.srvPtr
 	}
 	var recs []phaseRec
 	for k := 0; ; k++ {
@@ -412,6 +428,12 @@ func caseOf(sc scenario, recs []phaseRec, note string) vh.Case {
 	if sc.slowExit {
 		d["exit_callback_takes_300us"] = true
 	}
+	if len(sc.decoysBefore)+len(sc.decoysAfter) > 0 {
+		d["other_servers_in_the_process_maxConn"] = map[string]interface{}{"started_before": sc.decoysBefore, "started_after": sc.decoysAfter}
+	}
+	if sc.rawMgr {
+		d["accepted_connections_reach_SessionMgr.Do_unwrapped"] = true
+	}
 	if sc.readTO != 0 || sc.writeTO != 0 {
 		d["readTimeout"] = sc.readTO.String()
 		d["writeTimeout"] = sc.writeTO.String()
@@ -444,10 +466,14 @@ type jScenario struct {
 	CErr  bool       `json:"cerr,omitempty"`
 	SExit bool       `json:"sexit,omitempty"`
 	AMax  int        `json:"amax,omitempty"`
+	Raw   bool       `json:"raw,omitempty"`
+	Late  bool       `json:"late,omitempty"`
+	DB    []int32    `json:"db,omitempty"`
+	DA    []int32    `json:"da,omitempty"`
 }
 
 func encodeReplay(sc scenario, phases [][]label) string {
-	j := jScenario{Class: sc.class, Maxc: sc.maxc, RT: int64(sc.readTO), WT: int64(sc.writeTO), Pace: int64(sc.pace), Chunk: sc.chunk, Amp: sc.amp, SAmp: sc.sendAmp, CErr: sc.closeErr, SExit: sc.slowExit, AMax: sc.amax}
+	j := jScenario{Class: sc.class, Maxc: sc.maxc, RT: int64(sc.readTO), WT: int64(sc.writeTO), Pace: int64(sc.pace), Chunk: sc.chunk, Amp: sc.amp, SAmp: sc.sendAmp, CErr: sc.closeErr, SExit: sc.slowExit, AMax: sc.amax, Raw: sc.rawMgr, Late: sc.lateRead, DB: sc.decoysBefore, DA: sc.decoysAfter}
 	for _, p := range phases {
 		var q []jLabel
 		for _, l := range p {
@@ -473,7 +499,7 @@ func decodeReplay(s string) (scenario, error) {
 		phases = append(phases, q)
 	}
 	return scenario{class: j.Class, maxc: j.Maxc, readTO: time.Duration(j.RT), writeTO: time.Duration(j.WT), strategy: staticStrategy(phases),
-		pace: time.Duration(j.Pace), chunk: j.Chunk, amp: j.Amp, sendAmp: j.SAmp, closeErr: j.CErr, slowExit: j.SExit, amax: j.AMax}, nil
+		pace: time.Duration(j.Pace), chunk: j.Chunk, amp: j.Amp, sendAmp: j.SAmp, closeErr: j.CErr, slowExit: j.SExit, amax: j.AMax, rawMgr: j.Raw, lateRead: j.Late, decoysBefore: j.DB, decoysAfter: j.DA}, nil
 }
 
 func main() {
